@@ -119,7 +119,7 @@ def _shard(sh, ctx):
 
 
 def space(tier):
-    shards, info = M.space(tier, parts=('a',) if tier == 'quick' else ('a', 'nonroot'))
+    shards, info = M.space(tier, parts=('a', 'runs') if tier == 'quick' else ('a', 'runs', 'nonroot'))
     # (b) part with mergetool first
     if tier == 'quick':
         plan = [('S45', (M.MERGETOOL, M.DEFAULT)), ('Sv2', (M.MERGETOOL, M.DEFAULT, ('use-local', None, None, True))), ('Sjson', (M.MERGETOOL,)),
